@@ -74,6 +74,13 @@ def run(chk):
             if kfn is not None:
                 w = {p[1] for p, h, nd in E.function_writes(kfn) if p[0] == "this" and len(p) >= 2}
                 chk.ob("C14-R1", "%s knot routine writes only the knot array" % cls, w == {M.m_knots}, loc(kfn), str(sorted(w)), construct="%s/knot-routine-writes" % cls)
+    # time shift, content side: every knot is the start time plus a prefix sum of durations, so shifting the start time
+    # shifts every breakpoint handed to the trajectory by the same amount (the rule itself is C01-R3's)
+    for short in SPLINES:
+        for cls in alg_classes(F, short, ("update", "propagateGrad")):
+            M = spline_model(F, cls)
+            kr = c01.knot_rule(F, E, M)
+            chk.ob("C14-R1", "%s: knot k = start time + (durations 0..k-1), for every k in [0, N]" % cls, kr["size"] and kr["first"] and kr["prefix"], loc(kr["fn"]), kr["det"], construct=cls + "/knots/shift")
     chk.floor("C14-R1", 100)
     # ---- algebraic rules -------------------------------------------------------------------------------------
     for short in SPLINES:
